@@ -121,6 +121,24 @@ var pinned = []pin{
 	{name: "for-let-copy-seen-through-eval", // seeded C02-forlet-eval-copy: R13
 		a: `var q = []; for (let i = 0; i < 3; i++) { q[i] = () => i; } log(q[0](), q[1](), q[2]());`,
 		b: `var q = []; for (let i = 0; i < 3; i++) { q[i] = eval("() => i"); } log(q[0](), q[1](), q[2]());`},
+	{name: "eval-var-shadows-outer",
+		a:      `(function() { let y = 0; return (function() { var g = () => y; eval("var y = 3;"); log(g(), f()); function f() { return y; } })(); })();`,
+		expect: "L d:4008000000000000 d:4008000000000000\nRET u"},
+	{name: "eval-var-over-pattern-param",
+		a:      `log((function g(...x) { return eval("var x; x"); })(1), (function h([x]) { return eval("var x; x"); })([2]));`,
+		expect: "L o#1 d:4000000000000000\nRET u"},
+	{name: "this-in-eval-before-super",
+		a:      `function g() { } class C extends g { constructor() { try { log(eval("typeof super.n")); } catch (e) { log(e); } try { log(eval("typeof this")); } catch (e) { log(e); } super(); } n() { } } new C(); 0;`,
+		expect: "L E:ReferenceError\nL E:ReferenceError\nRET d:0000000000000000"},
+	{name: "switch-nested-break-completion",
+		a:      `switch (3) { default: 0; case 0: if (1) { break; } 0; case 1: }`,
+		expect: "RET u"},
+	{name: "param-tdz-through-eval", // R13 / R9 inside a parameter list
+		a: `function g([b] = (() => [c])(), c) { } try { g(); log("no error"); } catch (e) { log(e); }`,
+		b: `function g([b] = eval("() => [c]")(), c) { } try { g(); log("no error"); } catch (e) { log(e); }`},
+	{name: "derived-ctor-return-in-try-finally",
+		a:      `function b() { } new (class extends b { constructor() { super(); try { let g = () => eval(""); return; } finally { } } })(0); log("ok");`,
+		expect: "L s:2:ok\nRET u"},
 	{name: "unresolvable-callee-order",
 		a:      `function g() { log("g"); } try { nof(g()); } catch (e) { log(e); }`,
 		expect: "L E:ReferenceError\nRET u"},
